@@ -256,4 +256,74 @@ theorem signToken_block {tok key t h : Str} {fs : List Str} {exp ttlNs : Int}
   rw [hints_append]
   simp [sigField, List.append_assoc]
 
+
+/-! ## the layout of a text is unique -/
+
+/-- `[]` or a text that starts with a whitespace character -/
+def StartsWithSpace (x : Str) : Prop := ∀ c r, x = c :: r → isSpace c = true
+
+theorem first_field_unique {a b x y : Str} (ha : NoSpace a) (hb : NoSpace b)
+    (hx : StartsWithSpace x) (hy : StartsWithSpace y) (h : a ++ x = b ++ y) : a = b ∧ x = y := by
+  induction a generalizing b with
+  | nil =>
+    cases b with
+    | nil => exact ⟨rfl, by simpa using h⟩
+    | cons d ds =>
+      simp only [List.nil_append, List.cons_append] at h
+      have := hx d _ h
+      rw [hb d (List.mem_cons_self ..)] at this
+      exact absurd this (by simp)
+  | cons c cs ih =>
+    cases b with
+    | nil =>
+      simp only [List.nil_append, List.cons_append] at h
+      have := hy c _ h.symm
+      rw [ha c (List.mem_cons_self ..)] at this
+      exact absurd this (by simp)
+    | cons d ds =>
+      simp only [List.cons_append, List.cons.injEq] at h
+      obtain ⟨rfl, h⟩ := h
+      obtain ⟨rfl, rfl⟩ := ih (fun e he => ha e (List.mem_cons_of_mem _ he))
+        (fun e he => hb e (List.mem_cons_of_mem _ he)) h
+      exact ⟨rfl, rfl⟩
+
+theorem startsWithSpace_tail (rest : List (Char × Str)) (hs : ∀ p ∈ rest, isSpace p.1 = true) :
+    StartsWithSpace (rest.flatMap (fun p => p.1 :: p.2)) := by
+  intro c r h
+  cases rest with
+  | nil => simp at h
+  | cons p ps =>
+    simp only [List.flatMap_cons, List.cons_append, List.cons.injEq] at h
+    rw [← h.1]; exact hs p (List.mem_cons_self ..)
+
+/-- two layouts of the same text are the same layout -/
+theorem layout_unique {f0 g0 : Str} {rest rest' : List (Char × Str)}
+    (h1 : IsLayout f0 rest) (h2 : IsLayout g0 rest') (h : render f0 rest = render g0 rest') :
+    f0 = g0 ∧ rest = rest' := by
+  induction rest generalizing f0 g0 rest' with
+  | nil =>
+    obtain ⟨rfl, ht⟩ := first_field_unique h1.first h2.first
+      (startsWithSpace_tail [] (by simp)) (startsWithSpace_tail rest' h2.seps) h
+    cases rest' with
+    | nil => exact ⟨rfl, rfl⟩
+    | cons p ps => simp at ht
+  | cons p ps ih =>
+    obtain ⟨rfl, ht⟩ := first_field_unique h1.first h2.first
+      (startsWithSpace_tail _ h1.seps) (startsWithSpace_tail rest' h2.seps) h
+    cases rest' with
+    | nil => simp at ht
+    | cons q qs =>
+      obtain ⟨c, g⟩ := p
+      obtain ⟨d, k⟩ := q
+      simp only [List.flatMap_cons, List.cons_append, List.cons.injEq] at ht
+      obtain ⟨rfl, ht⟩ := ht
+      have l1 : IsLayout g ps :=
+        ⟨h1.fields (c, g) (List.mem_cons_self ..), fun q hq => h1.seps q (List.mem_cons_of_mem _ hq),
+          fun q hq => h1.fields q (List.mem_cons_of_mem _ hq)⟩
+      have l2 : IsLayout k qs :=
+        ⟨h2.fields (c, k) (List.mem_cons_self ..), fun q hq => h2.seps q (List.mem_cons_of_mem _ hq),
+          fun q hq => h2.fields q (List.mem_cons_of_mem _ hq)⟩
+      obtain ⟨rfl, rfl⟩ := ih l1 l2 ht
+      exact ⟨rfl, rfl⟩
+
 end ArvVerif.C07
